@@ -8,6 +8,7 @@ K=${SHARD%/*}; N=${SHARD#*/}; I=0
 for d in /verif/seeded/*/; do
   name=$(basename $d)
   I=$((I+1))
+  if grep -q '"superseded"' $d/meta.json; then continue; fi
   if [ -n "$SHARD" ] && [ $((I % N)) -ne $((K % N)) ]; then continue; fi
   # the check that is expected to catch it: the one named first in detected_by (a few seeds of property X are caught by the check of Y)
   pid=$(/venv/bin/python -c "import json,re;m=json.load(open('$d/meta.json'));r=re.match(r'\s*(C\d\d)',str(m.get('detected_by','')));print(r.group(1) if r else m['property'])")
